@@ -7,7 +7,7 @@
     are expression trees with uninterpreted ln / sqrt: an equality of results
     below holds for every interpretation of ln and sqrt. *)
 From Coq Require Import QArith Qminmax Permutation.
-From CG3 Require Import Lib.PyZ Model.Dist Model.NJ Spec.DistSpec Spec.SplitSpec Proofs.DistProofs Proofs.DistRunProofs Proofs.DistDupProofs Proofs.NJProofs Proofs.NJRunProofs Proofs.NJCompleteProofs Proofs.UPGMAProofs Proofs.NJQuartetProofs Proofs.NJCherryProofs Proofs.NJTreeMetricProofs.
+From CG3 Require Import Lib.PyZ Model.Dist Model.NJ Spec.DistSpec Spec.SplitSpec Proofs.DistProofs Proofs.DistRunProofs Proofs.DistDupProofs Proofs.NJProofs Proofs.NJRunProofs Proofs.NJCompleteProofs Proofs.UPGMAProofs Proofs.NJQuartetProofs Proofs.NJCherryProofs Proofs.NJTreeMetricProofs Proofs.NJBtreeProofs.
 Open Scope Z_scope.
 
 (** ------------------------------------------------------------------ pairwise counts *)
@@ -231,6 +231,27 @@ Theorem nj_consistency_on_trees : forall n d, tree_metric_gen n d ->
        exists q, (In (Z.of_nat x, Z.of_nat y, q) (tip_dists T) \/ In (Z.of_nat y, Z.of_nat x, q) (tip_dists T)) /\ q == d x y) /\
     (forall x y q, In (x, y, q) (tip_dists T) -> q == d (Z.to_nat x) (Z.to_nat y)).
 Proof. exact nj_consistent_on_trees. Qed.
+
+(** THE TREE-LEVEL STATEMENT.  [btree] (Spec/SplitSpec.v): leaf-labelled binary trees with branch
+    lengths as a datatype (rooted on an edge; read unrooted); [bt_metric c x y] = sum of the lengths
+    of the edges separating x and y = the path length.  For EVERY such tree with positive branch
+    lengths whose tips are exactly 0..n-1 (any arrangement), its edges form a maximal compatible
+    split system, so its metric is a [binary_tree_metric] ... *)
+Theorem binary_tree_path_metric_is_tree_metric : forall n c, (2 <= n)%nat -> bpos c -> NoDup (tips c) ->
+  (forall x, In x (tips c) <-> (x < n)%nat) -> binary_tree_metric n (bt_metric c).
+Proof. exact btree_metric_is_binary_tree_metric. Qed.
+
+(** ... and neighbour joining returns, for every n >= 3, a tree with positive branch lengths,
+    exactly the tips 0..n-1, every pair of tips listed, and every listed tip-to-tip path length
+    equal to the path length in the generating tree.  No hypothesis about the run. *)
+Theorem nj_consistency_on_binary_trees : forall n c, (3 <= n)%nat -> bpos c -> NoDup (tips c) ->
+  (forall x, In x (tips c) <-> (x < n)%nat) ->
+  exists T, nj n (bt_metric c) = Some T /\ pos_tree T /\
+    Permutation (names T) (map Z.of_nat (seq 0 n)) /\
+    (forall x y, (x < n)%nat -> (y < n)%nat -> x <> y ->
+       exists q, (In (Z.of_nat x, Z.of_nat y, q) (tip_dists T) \/ In (Z.of_nat y, Z.of_nat x, q) (tip_dists T)) /\ q == bt_metric c x y) /\
+    (forall x y q, In (x, y, q) (tip_dists T) -> q == bt_metric c (Z.to_nat x) (Z.to_nat y)).
+Proof. exact nj_consistent_on_btrees. Qed.
 
 Theorem nj_consistency_nonvacuous : binary_tree_metric 4 ex_quartet.
 Proof. exact ex_quartet_binary_tree_metric. Qed.
